@@ -206,7 +206,12 @@ func checkC31(c *Ctx, r *Report) {
 
 	// ---- R2
 	batchW := map[string][]*ssa.Store{}
-	for _, b := range fn.Blocks {
+	// the rewrite function together with the private helpers it owns (e.g. an extracted re-seal step)
+	var famBlocks []*ssa.BasicBlock
+	for _, f := range fnFamily(m, fn) {
+		famBlocks = append(famBlocks, f.Blocks...)
+	}
+	for _, b := range famBlocks {
 		for _, in := range b.Instrs {
 			st, ok := in.(*ssa.Store)
 			if !ok {
@@ -215,6 +220,9 @@ func checkC31(c *Ctx, r *Report) {
 			fa, ok := st.Addr.(*ssa.FieldAddr)
 			if !ok {
 				continue
+			}
+			if _, fresh := fa.X.(*ssa.Alloc); fresh {
+				continue // a batch value being constructed (decode helper), not an existing batch being rewritten
 			}
 			if t, f, _, ok := fieldAddrInfo(fa); ok && (strings.HasSuffix(t, "kmsg.RecordBatch") || strings.HasSuffix(t, "proxy.lfsRecordBatch")) {
 				batchW[f] = append(batchW[f], st)
@@ -238,7 +246,7 @@ func checkC31(c *Ctx, r *Report) {
 	last := func(f string) *ssa.Store {
 		var l *ssa.Store
 		for _, st := range batchW[f] {
-			if l == nil || instrDominates(l, st) {
+			if l == nil || (l.Parent() == st.Parent() && instrDominates(l, st)) {
 				l = st
 			}
 		}
